@@ -373,7 +373,7 @@ func init() {
 			}
 		}})
 
-	register(&Rule{ID: "C12.R5", Props: []string{"C12"}, Min: 2, Needs: NeedMain,
+	register(&Rule{ID: "C12.R5", Props: []string{"C12", "C10"}, Min: 2, Needs: NeedMain,
 		Doc: "a request counts as in flight from the moment it is read: the in-flight counter decremented by a handler closure is incremented in the enclosing function, before the closure is handed to the pool / started, never inside the closure",
 		Run: func(r *R) {
 			for _, cl := range handlerClosures(r.w) {
